@@ -17,6 +17,7 @@
 #include "aln_controller.h"
 
 #include "weave_alignment.h"
+#include "kalign_verif.h"
 /* #include "weave_alignment.h" */
 
 #define ALN_RUN_IMPORT
@@ -127,6 +128,7 @@ int do_align(struct msa* msa,struct aln_tasks* t,struct aln_mem* m, int task_id)
         a = t->list[task_id]->a;
         b = t->list[task_id]->b;
         c = t->list[task_id]->c;
+        KV_EVENT(KV_MERGE_BEGIN,a,b,c,msa,t);
 
         if(msa->nsip[a] == 1){
                 m->len_a = msa->sequences[a]->len;//  aln->sl[a];
@@ -239,7 +241,9 @@ int do_align(struct msa* msa,struct aln_tasks* t,struct aln_mem* m, int task_id)
                 }
         }
 
+        KV_EVENT(KV_MERGE_DP_DONE,a,b,c,msa,t);
         RUN(add_gap_info_to_path_n(m)) ;
+        KV_EVENT(KV_MERGE_PATH_DONE,a,b,c,msa,t);
         /* LOG_MSG("Aligned %d and %d (len %d %d) -> path is of length: %d",a,b, m->len_a,m->len_b, 64*(m->path[0]+2)); */
 
         MMALLOC(tmp,sizeof(float)*64*(m->path[0]+2));
@@ -270,6 +274,7 @@ int do_align(struct msa* msa,struct aln_tasks* t,struct aln_mem* m, int task_id)
                 g++;
         }
 
+        KV_EVENT(KV_MERGE_END,a,b,c,msa,t);
         return OK;
 ERROR:
         return FAIL;
